@@ -169,7 +169,7 @@ AbsFrame(st, f, rj) ==
                   \/ (f.op = 0 /\ rsv1)
                   \/ (f.op = 0 /\ ~st.inMsg)
                   \/ (f.op \in {1, 2} /\ st.inMsg)
-        accLen == IF f.op = 0 /\ st.inMsg THEN Len(st.acc) ELSE 0
+        accLen == IF data /\ st.inMsg THEN Len(st.acc) ELSE 0
         total == IF n = Big THEN Big ELSE accLen + n
         over == data /\ MaxMsg > 0 /\ total > MaxMsg
         atcap == data /\ MaxMsg > 0 /\ total >= MaxMsg
